@@ -33,10 +33,13 @@ def side? : Sexp → Option Side
   | .atom "expect" => some .expect
   | _ => none
 
-/-- stage = `((cleanup stage …) (side …) beh)` -/
-partial def stage? : Sexp → Option Stage
-  | .list [.list cs, sides, b] => do some (.mk (← cs.mapM stage?) (← list? side? sides) (← beh? b))
-  | _ => none
+/-- stage = `((cleanup stage …) (side …) beh)`, cleanups nested at most `fuel` deep -/
+def stageF : Nat → Sexp → Option Stage
+  | 0, _ => none
+  | n + 1, .list [.list cs, sides, b] => do some (.mk (← cs.mapM (stageF n)) (← list? side? sides) (← beh? b))
+  | _ + 1, _ => none
+
+def stage? (s : Sexp) : Option Stage := stageF 64 s
 
 /-- an optional last element says on which reactor the harness ran the program (`real`); the model is the same -/
 def input? : Sexp → Option Prog
